@@ -68,3 +68,9 @@ claim("C10", "exploration", "exhaustive enumeration of a finite product of atom 
       "tables are returned unchanged, unfittable ones raise ValueError, and every fitted table is within limits, keeps atom order and fields, renames "
       "chains/residues one-to-one preserving grouping and survives write_pdb + parse_pdb_atoms.",
       "Tables are built by the library's own parsers from independently emitted text; PDB-derived tables are within limits by construction.", "DESIGN.md 3/C10")
+
+claim("C08", "exploration", "deviation-bounded exhaustive enumeration of abstract atom tables x formats x emitter options x requested models on the real reader, expectation computed from the abstract table",
+      "Every table within 2 deviations (thorough: 3 on a reduced list) of the base table - models sharing identities, negative numbers, insertion codes, "
+      "altlocs, repeated names, sub-0.5 A neighbours, HETATM, long names, absent occupancy, both null markers, label != auth - emitted as PDB and mmCIF and "
+      "read for every requested model: only the requested model's atoms, each once, highest-occupancy copy, clash rule, residues in file order with exact identity and coordinates.",
+      "Absent occupancy combined with duplicates/close atoms is executed but not judged; ties in occupancy admit either copy.", "DESIGN.md 3/C08")
